@@ -7,6 +7,7 @@ import (
 	"io"
 	"net"
 	"strconv"
+	"strings"
 	"time"
 
 	"github.com/cnotch/ipchub/media"
@@ -131,7 +132,7 @@ const verifSdpAbsolute = "v=0\r\no=- 0 0 IN IP4 127.0.0.1\r\ns=x\r\nt=0 0\r\nm=v
 // exactly one pull goroutine and a stream, or fails with everything released; it never
 // panics; CSeq increases; a logical request is sent at most three times.
 func VerifPullOpen() {
-	urls := []string{"rtsp://admin:pw@cam/live", "rtsp://cam", "rtsp://cam/"}
+	urls := []string{"rtsp://admin:pw@cam/live", "rtsp://cam", "rtsp://cam/", "rtsp://admin:pw@cam/Streaming/Channels/101?transportmode=unicast"}
 	remote := urls[symapi.Choose("url", len(urls))]
 	c, err := NewPullClient("/pull/a", remote)
 	symapi.Assert(err == nil && c != nil, "client-created")
@@ -169,6 +170,16 @@ func VerifPullOpen() {
 		prev = n
 	}
 	symapi.Assert(len(reqs) <= 3*5, "at-most-three-sends-per-logical-request")
+	for _, r := range reqs {
+		// a camera checks the digest against the Request-URI it received (RFC 2617 3.2.2.5)
+		if a := r.Header.Get(FieldAuthorization); strings.HasPrefix(a, "Digest ") {
+			i := strings.Index(a, `uri="`)
+			symapi.Assert(i >= 0, "digest-authorization-names-a-uri")
+			u := a[i+5:]
+			u = u[:strings.IndexByte(u, '"')]
+			symapi.Assert(u == r.URL.String(), "digest-uri-equals-the-request-uri")
+		}
+	}
 	if openErr != nil {
 		symapi.Assert(c.closed, "failed-open-disconnects")
 		if !verifConnectFails {
@@ -182,7 +193,7 @@ func VerifPullOpen() {
 		// otherwise answers normally accepts the route's credentials: the pull must succeed
 		challengesOnly := (cam.fault1At == 0 || cam.fault1Kind == 1 || cam.fault1Kind == 2) &&
 			(cam.fault2At == 0 || cam.fault2Kind == 1 || cam.fault2Kind == 2)
-		symapi.Assert(!(challengesOnly && !verifConnectFails && remote == urls[0] && cam.sdp != "not an sdp"),
+		symapi.Assert(!(challengesOnly && !verifConnectFails && (remote == urls[0] || remote == urls[3]) && cam.sdp != "not an sdp"),
 			"pull-succeeds-when-the-camera-only-challenges")
 	} else {
 		symapi.Assert(c.stream != nil && !c.closed, "successful-open-has-a-stream")
@@ -308,4 +319,15 @@ func VerifSetupURLTwin() {
 	c, _ := NewPullClient("/pull/a", "rtsp://cam/live/")
 	u, _ := c.getSetupURL(symapi.String("ctrl", 1) + "x")
 	symapi.Assert(u.Path[len("/live/")] == '/', "twin-double-slash")
+}
+
+// VerifPullPath (C17 / C20): the pull client publishes under exactly the path it was asked
+// for, also when that path contains characters with a meaning in URLs.
+func VerifPullPath() {
+	paths := []string{"/cams/plain", "/cams/door#1", "/cams/a?b=1", "/cams/a%41", "/cams/a b", "/cams/a+b"}
+	p := paths[symapi.Choose("path", len(paths))]
+	c, err := NewPullClient(p, "rtsp://cam/live")
+	symapi.Assert(err == nil && c != nil, "client-created")
+	symapi.Assert(c.path == p, "pulled-stream-published-under-the-requested-path")
+	symapi.Reach("end")
 }
